@@ -8,6 +8,7 @@ import RsddModel.Driver.OptStream
 import RsddModel.Driver.UpStream
 import RsddModel.Driver.TdStream
 import RsddModel.Driver.CompStream
+import RsddModel.Driver.QueryStream
 /-!
 # Line-protocol driver
 
@@ -34,6 +35,7 @@ def judge (line : String) : String :=
     | "up" => checkUpLine kvs rhs
     | "td" => checkTdLine kvs rhs
     | "comp" => checkCompLine kvs rhs
+    | "query" => checkQueryLine kvs rhs
     | _ => s!"FAIL PARSE unknown stream {stream}"
 
 partial def loop (h : IO.FS.Stream) : IO Unit := do
